@@ -19,7 +19,10 @@ use qbase::{
 };
 use qcongestion::{Algorithm, ArcCC, Feedback, HandshakeStatus, MSS, PathStatus, Transport};
 use qevent::quic::recovery::PacketLostTrigger;
-use qrecovery::journal::{ArcRcvdJournal, ArcSentJournal};
+use qrecovery::{
+    crypto::CryptoStream,
+    journal::{ArcRcvdJournal, ArcSentJournal, Journal},
+};
 use serde::{Deserialize, Serialize};
 use simcore::Rng;
 use tokio::time::Duration;
@@ -83,6 +86,61 @@ impl Feedback for Tracker {
     }
 }
 
+/// the real (private) `qconnection::space::Ack*Space` handler of the fixture's epoch, reached through hook H5, on
+/// a journal of its own that has sent exactly as many packets as the fixture (trivial ones: the glue's cost and
+/// answer for a forged ACK depend on the packet numbers only)
+enum Glue {
+    Crypto { journal: Journal<qbase::frame::CryptoFrame>, cs: CryptoStream },
+    Data { journal: Journal<qconnection::GuaranteedFrame>, ds: qconnection::DataStreams, cs: CryptoStream },
+}
+
+impl Glue {
+    fn new(epoch: Epoch, server: bool) -> Glue {
+        use qbase::{net::tx::ArcSendWakers, param::{ClientParameters, ServerParameters}, role::Role, sid::handy::ConsistentConcurrency};
+        let wakers = ArcSendWakers::default();
+        let cs = CryptoStream::new(wakers.clone());
+        if epoch != Epoch::Data {
+            return Glue::Crypto { journal: Journal::with_capacity(16, None), cs };
+        }
+        let ctrl: Box<dyn qbase::sid::ControlStreamsConcurrency> = Box::new(ConsistentConcurrency::new(4, 4));
+        let sink = qconnection::ArcReliableFrameDeque::with_capacity_and_wakers(8, wakers.clone());
+        let ds = if server {
+            qconnection::DataStreams::new(Role::Server, &ServerParameters::default(), &ClientParameters::default(), ctrl, sink, wakers, None)
+        } else {
+            qconnection::DataStreams::new(Role::Client, &ClientParameters::default(), &ServerParameters::default(), ctrl, sink, wakers, None)
+        };
+        Glue::Data { journal: Journal::with_capacity(16, None), ds, cs }
+    }
+
+    fn sent_one(&self, retran: Duration, expire: Duration) -> u64 {
+        match self {
+            Glue::Crypto { journal, .. } => {
+                let sent = journal.of_sent_packets();
+                let mut g = sent.new_packet();
+                let pn = g.pn().0;
+                g.record_trivial();
+                g.build_with_time(retran, expire);
+                pn
+            }
+            Glue::Data { journal, .. } => {
+                let sent = journal.of_sent_packets();
+                let mut g = sent.new_packet();
+                let pn = g.pn().0;
+                g.record_trivial();
+                g.build_with_time(retran, expire);
+                pn
+            }
+        }
+    }
+
+    fn recv_ack(&self, epoch: Epoch, f: AckFrame) -> Result<(), qbase::error::Error> {
+        match self {
+            Glue::Crypto { journal, cs } => qconnection::space::verif_hooks::recv_ack_crypto_space(epoch, journal, cs, f),
+            Glue::Data { journal, ds, cs } => qconnection::space::verif_hooks::recv_ack_data_space(journal, ds.clone(), cs, f),
+        }
+    }
+}
+
 struct SentModel {
     pn: u64,
     lost: bool,
@@ -93,6 +151,7 @@ pub struct Fx {
     sent: ArcSentJournal<u32>,
     rcvd: ArcRcvdJournal,
     cc: ArcCC,
+    glue: Glue,
     max_ack_delay: Duration,
     pkts: Vec<SentModel>,
     next_tag: u32,
@@ -126,7 +185,7 @@ impl Fx {
         status.release_anti_amplification_limit();
         let trackers: [Arc<dyn Feedback>; 3] = [Arc::new(Tracker(sent.clone())), Arc::new(Tracker(sent.clone())), Arc::new(Tracker(sent.clone()))];
         let cc = ArcCC::new(Algorithm::NewReno, max_ack_delay, trackers, status, ArcSendWaker::new());
-        Fx { epoch, sent, rcvd, cc, max_ack_delay, pkts: Vec::new(), next_tag: 1, peer_next: 0, peer_la: 0, units: 16 }
+        Fx { epoch, sent, rcvd, cc, glue: Glue::new(epoch, h.server), max_ack_delay, pkts: Vec::new(), next_tag: 1, peer_next: 0, peer_la: 0, units: 16 }
     }
 
     fn next_pn(&self) -> u64 {
@@ -157,6 +216,8 @@ impl Fx {
             g.record_trivial();
         }
         g.build_with_time(retran, expire);
+        let glue_pn = self.glue.sent_one(retran, expire);
+        debug_assert_eq!(glue_pn, pn);
         let ack_eliciting = nframes > 0 || largest_ack.is_none();
         self.cc.on_pkt_sent(self.epoch, pn, ack_eliciting, size as usize, ack_eliciting, largest_ack);
         self.pkts.push(SentModel { pn, lost });
@@ -226,11 +287,22 @@ impl Fx {
             }
             Ok::<u64, qbase::error::QuicError>(n)
         });
-        match r {
+        // the same frame through the real glue of `qconnection::space` (hook H5); its answer must be the mirror's
+        let (glue, f2) = (&self.glue, f.clone());
+        let g = meter::handler(runs, "space.Ack*Space.recv_frame", move || glue.recv_ack(epoch, f2));
+        let answer = |r: Option<Result<(), String>>| match r {
             None => Answer::Panic,
-            Some(Ok(_)) => Answer::Ok,
-            Some(Err(e)) => Answer::Err(format!("{:?}", e.kind())),
-        }
+            Some(Ok(())) => Answer::Ok,
+            Some(Err(e)) => Answer::Err(e),
+        };
+        let mirror = answer(r.map(|r| r.map(|_| ()).map_err(|e| format!("{:?}", e.kind()))));
+        let real = answer(g.map(|r| {
+            r.map_err(|e| match e {
+                qbase::error::Error::Quic(q) => format!("{:?}", q.kind()),
+                other => format!("{other:?}"),
+            })
+        }));
+        if real != mirror { real } else { mirror }
     }
 
     async fn run(&mut self, ops: &[JOp]) -> Result<(), String> {
